@@ -28,6 +28,16 @@ def run(ctx, rep):
     rep.rule("P3", "iterates: backtracking x' = x + a(P(x - grad/mu) - x) with a starting at 1.0 and only multiplied by a literal in "
                    "(0,1); momentum and FISTA x' = P(.); the result carries x'", floor=6)
     rep.rule("P4", "with no start point given, x0 = template.generate_origin_obj().to_var()", floor=3)
+    # the projection both estimator families call is the alternating scheme itself: an estimate is "the physical
+    # projection" only if that routine is Dykstra's; the C05 recurrence / start / stopping / result rules are re-run here
+    from . import c05
+    rep.rule("K1", "calc_proj_physical(_with_var): each mode_proj_order branch is y'=P_A(x+p); p'=x+p-y'; x'=P_B(y'+q); q'=y'+q-x' with "
+                   "(A,B)=(eq,ineq) for 'eq_ineq' and (ineq,eq) otherwise (rule K1 of C05, exact in the affine domain)", floor=16)
+    rep.rule("K2", "p and q start at the zero object, x at (a copy of) the input; the shift block assigns prev := next for all four", floor=4)
+    rep.rule("K3", "stopping value and comparison of the projection loop (rule K3 of C05)", floor=2)
+    rep.rule("K4", "the returned point is the last x' (rule K4 of C05)", floor=4)
+    for nm, level in (("calc_proj_physical", "object"), ("calc_proj_physical_with_var", "var")):
+        c05._check_routine(ctx, rep, ix.func(c05.Q + nm), level)
     _p1(ctx, rep)
     _p2(ctx, rep)
     for name, qn in ALGOS.items():
